@@ -335,6 +335,10 @@ func hasCall(tok *token) bool {
 	if tok.Symbol == "call" || tok.Symbol == "func" || tok.Symbol == "lambda" {
 		return true
 	}
+	switch tok.Symbol { // a statement where an operand should be (a[a[0]++]++ parses): it stores, so it is evaluated once as well
+	case "++", "--", "=", ":=", "+=", "-=", "*=", "/=", "%=", "&=", "|=", "^=", "<<=", ">>=", "&^=":
+		return true
+	}
 	for _, t := range tok.Tokens {
 		if hasCall(t) {
 			return true
